@@ -5,6 +5,7 @@ import N2V.Model.World
 import N2V.Lemmas.Work
 import N2V.Lemmas.WorldClean
 import N2V.Lemmas.WorldSettled
+import N2V.Lemmas.WorldReflect
 namespace N2V.C03
 open N2V N2V.Work N2V.Load
 
@@ -189,5 +190,17 @@ example : Plain exEnv.g := by
   refine ⟨?_, ?_, ?_⟩ <;> intro b bm hb <;> (cases b with
     | zero => simp [buildOf, exEnv] at hb; subst hb; decide
     | succ n => simp [buildOf, exEnv] at hb)
+
+/-- **The monitor's verdict is the theorem's hypothesis.**  `World.settledC` is the decidable
+    predicate the driver evaluates on the world the real n2 left behind (monitor
+    settledAfterSuccess): every non-phony step in the requested closure has its files, its latest
+    record is the manifest of the tree as it is, its generated discovered dependencies come from
+    ordering ancestors - plus a check that the computed closure is closed.  When it says `true`,
+    the hypothesis of `repeated_build_does_nothing` holds (reflection, `settledC_sound`), hence
+    every further invocation with these arguments changes nothing and runs nothing. -/
+theorem settled_world_is_left_alone (w : Work.World) (a : Work.InvArgs) (h : World.settledC w a = true)
+    (obs1 obs2 : List (List Nat) × List (Nat × Sched.Term)) :
+    (Work.invoke w a obs1 obs2).1 = w ∧ Work.commandEvents (Work.invoke w a obs1 obs2).2.2 = [] :=
+  World.settled_world_is_left_alone w a h obs1 obs2
 
 end N2V.C03
